@@ -247,7 +247,7 @@ def paths_from_path(
     path: str,
     ignore_non_existent_files: bool = False,
     ignore_files: bool = True,
-    working_path: str = os.getcwd(),
+    working_path: Optional[str] = None,
     target_file_exts: Sequence[str] = (".sql",),
     check_non_existent_file: bool = False,
 ) -> list[str]:
@@ -266,6 +266,10 @@ def paths_from_path(
     of the two. This might be counterintuitive, but supports an appropriate solution
     for the dbt templater without having to additionally pass the project root path.
     """
+    # NOTE: Resolve the working path at call time, not at import time.
+    if working_path is None:
+        working_path = os.getcwd()
+
     if not os.path.exists(path) and not check_non_existent_file:
         if ignore_non_existent_files:
             return []
